@@ -368,8 +368,8 @@ def rule_literal_provenance(ctx, kind=None):
                     "%s is applied to %s but the encoder encoded %s in this function: literals are numbered by the ids of the encoded framework" % (what, sorted(got - enc), sorted(enc)),
                     s.loc(),
                 )
-    r.floor(n, 12 if kind is None else 4, "arg_to_lit / assignment_to_extension sites in the static solvers")
-    r.floor(n_res, 9 if kind is None else (1 if kind == "extension" else 3), "sites whose provenance is resolved")
+    r.floor(n, 9 if kind is None else 3, "arg_to_lit / assignment_to_extension sites in the static solvers")
+    r.floor(n_res, 6 if kind is None else (1 if kind == "extension" else 2), "sites whose provenance is resolved")
 
 
 # ------------------------------------------------------------------------------------------
